@@ -465,11 +465,19 @@ static bool topLevel(const string& op, int c, int arg, bool* bad)
 static int64_t iterOf(EventLoop* l) { return *const_cast<volatile int64_t*>(&l->iteration_); }
 static void msleep(int ms) { ::usleep(static_cast<useconds_t>(ms) * 1000); }
 
+// wait (at most maxms) until pred() holds; the scenario never relies on a fixed sleep being long enough for the loop
+// thread to be scheduled -- only "nothing happens for 150 ms" observations are timed
+template <typename F> static bool waitFor(F pred, int maxms)
+{
+  for (int i = 0; i < maxms; ++i) { if (pred()) return true; msleep(1); }
+  return pred();
+}
+
 static void loopScenario(const string& backend)
 {
   if (backend == "poll") ::setenv("MUDUO_USE_POLL", "1", 1); else ::unsetenv("MUDUO_USE_POLL");
   std::atomic<EventLoop*> lp(NULL);
-  std::atomic<int> timerRuns(0), taskRuns(0);
+  std::atomic<int> timerRuns(0), taskRuns(0), nestedRuns(0);
   std::thread th([&]() {
     EventLoop l;
     lp.store(&l);
@@ -478,44 +486,55 @@ static void loopScenario(const string& backend)
   });
   while (lp.load() == NULL) msleep(1);
   EventLoop* l = lp.load();
-  for (int i = 0; i < 2000 && !l->looping_; ++i) msleep(1);
+  for (int i = 0; i < 5000 && !l->looping_; ++i) msleep(1);
   const char* kind = dynamic_cast<PollPoller*>(l->poller_.get()) ? "PollPoller"
                      : dynamic_cast<EPollPoller*>(l->poller_.get()) ? "EPollPoller" : "?";
   std::ostringstream os;
   os << "loop backend=" << backend << " poller=" << kind;
   msleep(30);
+  const int LIMIT = 4000;   // ms; far below the 10 s poll time-out a lost wake-up would have to wait for
+  auto idle = [&](const char* name) {
+    int64_t x = iterOf(l); msleep(150); int64_t y = iterOf(l);
+    os << " " << name << "=" << (y - x == 0 ? "blocked" : "SPINS(" + std::to_string(y - x) + ")");
+  };
   // 1. idle: nothing ready, no timer, no task -> blocked in poll (10 s time-out)
-  int64_t a = iterOf(l); msleep(150); int64_t b = iterOf(l);
-  os << " idle1=" << (b - a == 0 ? "blocked" : "SPINS(" + std::to_string(b - a) + ")");
-  // 2. three wake-ups: each is consumed (level-triggered eventfd drained by handleRead)
-  for (int i = 0; i < 3; ++i) { l->wakeup(); msleep(20); }
+  idle("idle1");
+  // 2. three wake-ups: each makes the loop iterate, each is consumed (level-triggered eventfd drained by handleRead)
+  int64_t b = iterOf(l);
+  bool wakeOk = true;
+  for (int i = 0; i < 3; ++i)
+  {
+    int64_t before = iterOf(l);
+    l->wakeup();
+    if (!waitFor([&]() { return iterOf(l) > before; }, LIMIT)) wakeOk = false;
+    msleep(5);
+  }
   int64_t c = iterOf(l);
-  os << " wake=" << ((c - b >= 1 && c - b <= 3) ? "ok" : "BAD(" + std::to_string(c - b) + ")");
-  msleep(20);
-  int64_t d0 = iterOf(l); msleep(150); int64_t d = iterOf(l);
-  os << " idle2=" << (d - d0 == 0 ? "blocked" : "SPINS(" + std::to_string(d - d0) + ")");
+  os << " wake=" << ((wakeOk && c - b >= 3 && c - b <= 6) ? "ok" : "BAD(" + std::to_string(c - b) + ")");
+  idle("idle2");
   // 3. a queued task from this (foreign) thread: runs once, loop blocks again
+  int64_t d = iterOf(l);
   l->queueInLoop([&]() { ++taskRuns; });
-  msleep(40);
-  int64_t e0 = iterOf(l); msleep(150); int64_t e = iterOf(l);
-  os << " task=" << (taskRuns.load() == 1 && e0 - d <= 2 ? "ok" : "BAD(" + std::to_string(taskRuns.load()) + "," + std::to_string(e0 - d) + ")");
-  os << " idle3=" << (e - e0 == 0 ? "blocked" : "SPINS(" + std::to_string(e - e0) + ")");
+  bool taskOk = waitFor([&]() { return taskRuns.load() >= 1; }, LIMIT);
+  msleep(5);
+  int64_t e0 = iterOf(l);
+  os << " task=" << (taskOk && taskRuns.load() == 1 && e0 - d <= 2 ? "ok" : "BAD(" + std::to_string(taskRuns.load()) + "," + std::to_string(e0 - d) + ")");
+  idle("idle3");
   // 3b. a functor that queues another functor while doPendingFunctors is running (callingPendingFunctors_): the second
   //     one must be woken for at once (not after the 10 s poll time-out), runs once, and the loop blocks again
-  std::atomic<int> nestedRuns(0);
   l->queueInLoop([&, l]() { l->queueInLoop([&]() { ++nestedRuns; }); });
-  msleep(60);
-  int nr = nestedRuns.load();
-  int64_t g0 = iterOf(l); msleep(150); int64_t g1 = iterOf(l);
-  os << " nested=" << (nr == 1 ? "ok" : "BAD(" + std::to_string(nr) + ")");
-  os << " idle3b=" << (g1 - g0 == 0 ? "blocked" : "SPINS(" + std::to_string(g1 - g0) + ")");
-  e = g1;
+  bool nestedOk = waitFor([&]() { return nestedRuns.load() >= 1; }, LIMIT);
+  msleep(5);
+  os << " nested=" << (nestedOk && nestedRuns.load() == 1 ? "ok" : "BAD(" + std::to_string(nestedRuns.load()) + ")");
+  idle("idle3b");
   // 4. a timer: fires once (timerfd read by readTimerfd), loop blocks again
+  int64_t e = iterOf(l);
   l->runAfter(0.03, [&]() { ++timerRuns; });
-  msleep(120);
-  int64_t f0 = iterOf(l); msleep(150); int64_t f = iterOf(l);
-  os << " timer=" << (timerRuns.load() == 1 && f0 - e <= 3 && f0 - e >= 1 ? "ok" : "BAD(" + std::to_string(timerRuns.load()) + "," + std::to_string(f0 - e) + ")");
-  os << " idle4=" << (f - f0 == 0 ? "blocked" : "SPINS(" + std::to_string(f - f0) + ")");
+  bool timerOk = waitFor([&]() { return timerRuns.load() >= 1; }, LIMIT);
+  msleep(5);
+  int64_t f0 = iterOf(l);
+  os << " timer=" << (timerOk && timerRuns.load() == 1 && f0 - e <= 3 && f0 - e >= 1 ? "ok" : "BAD(" + std::to_string(timerRuns.load()) + "," + std::to_string(f0 - e) + ")");
+  idle("idle4");
   l->quit();
   th.join();
   ::unsetenv("MUDUO_USE_POLL");
